@@ -1,7 +1,305 @@
-//! C16 — not implemented yet.
+//! C16 — async readers and writers behave exactly like their synchronous counterparts.
+//!
+//! Readers: transcript(async reader over a scripted poll adversary) = transcript(sync reader over the
+//! same bytes) — headers, records, virtual positions and the first error (stage and kind). Inputs:
+//! valid files written by the sync writers, and (class `damaged`, own signatures) truncated or
+//! corrupted variants for the "same errors" clause.
+//! Writers: what the async writer puts into a scripted sink decodes to the same transcript as the
+//! sync writer's output; byte-identical where no compression is involved (SAM, VCF, FASTQ, BAI, gzi,
+//! fai) and identical after BGZF decoding for CSI / tabix payloads.
 
+use crate::drivers::asyncs::{has_async_reader, has_async_writer, read_async, write_async};
+use crate::drivers::{self, Delivery, Doc, Ev, ReadOpts, summarize};
+use crate::engine::shard::ClosureSub;
 use crate::engine::*;
+use crate::io_adv::async_adv::PollScript;
+use crate::oracle::bgzf_walk;
+use proptest::prelude::*;
+use serde::{Deserialize, Serialize};
+use std::sync::Arc;
+
+#[derive(Clone, Debug, Serialize, Deserialize)]
+pub enum Damage {
+    None,
+    /// cut at per-mille of the length
+    Truncate(u16),
+    /// flip one byte at per-mille of the length
+    Flip(u16, u8),
+}
+
+#[derive(Clone, Debug, Serialize, Deserialize)]
+pub struct Case {
+    pub doc: Doc,
+    pub script: PollScript,
+    pub workers: u8,
+    pub damage: Damage,
+}
+
+fn script() -> BoxedStrategy<PollScript> {
+    prop_oneof![
+        1 => Just(PollScript { steps: vec![] }),
+        2 => Just(PollScript { steps: vec![0, 1] }),
+        3 => proptest::collection::vec(prop_oneof![2 => Just(0u32), 3 => 1u32..8, 2 => 1u32..700, 1 => Just(70_000u32)], 1..7).prop_map(|steps| PollScript { steps }),
+    ]
+    .boxed()
+}
+
+fn first_diff(a: &[Ev], b: &[Ev]) -> String {
+    let i = a.iter().zip(b.iter()).position(|(x, y)| x != y).unwrap_or(a.len().min(b.len()));
+    format!(
+        "event {i}: sync={} async={}",
+        a.get(i).map(|e| trunc(&format!("{e:?}"), 300)).unwrap_or("<none>".into()),
+        b.get(i).map(|e| trunc(&format!("{e:?}"), 300)).unwrap_or("<none>".into())
+    )
+}
+
+fn check_reader(name: &'static str, c: &Case) -> Verdict {
+    let drv = drivers::by_name(name).unwrap();
+    let mut bytes = match drivers::write_to_vec(drv.as_ref(), &c.doc) {
+        Ok(b) => b,
+        Err(e) => return fail1(format!("c16.baseline-write-error:{name}"), format!("{e}")),
+    };
+    let damaged = match &c.damage {
+        Damage::None => false,
+        Damage::Truncate(pm) => {
+            let k = (*pm as usize % 1001) * bytes.len() / 1000;
+            bytes.truncate(k);
+            true
+        }
+        Damage::Flip(pm, x) => {
+            if !bytes.is_empty() {
+                let k = ((*pm as usize % 1000) * bytes.len() / 1000).min(bytes.len() - 1);
+                bytes[k] ^= (*x).max(1);
+            }
+            true
+        }
+    };
+    let data = Arc::new(bytes);
+    let opts = ReadOpts { max_events: 50_000, ..ReadOpts::default() };
+    let (sync_t, _) = drv.read(&data, &Delivery::Plain, &c.doc, &opts);
+    if !damaged && sync_t.iter().any(|e| matches!(e, Ev::Err { .. } | Ev::Runaway)) {
+        return fail1(format!("c16.baseline-read-error:{name}"), summarize(&sync_t));
+    }
+    let Some((async_t, st)) = read_async(name, &data, &c.doc, &c.script, c.workers as usize, &opts) else {
+        return fail1(shard::HARNESS_PANIC, format!("no async reader for {name}"));
+    };
+    // Error *kinds* are not asserted (they differ through wrapping: UnexpectedEof vs InvalidData …);
+    // whether, where (stage) and after which events an error is reported is. Positions after a
+    // failure are not meaningful, so for damaged inputs virtual positions are not compared.
+    let mut kind_differs = false;
+    let norm = |t: &[Ev], kd: &mut bool, other: &[Ev]| -> Vec<Ev> {
+        t.iter()
+            .enumerate()
+            .filter(|(_, e)| !(damaged && matches!(e, Ev::Vpos(_))))
+            .map(|(i, e)| match e {
+                Ev::Err { stage, kind } => {
+                    if let Some(Ev::Err { stage: s2, kind: k2 }) = other.get(i) {
+                        if s2 == stage && k2 != kind {
+                            *kd = true;
+                        }
+                    }
+                    Ev::Err { stage, kind: String::new() }
+                }
+                e => e.clone(),
+            })
+            .collect()
+    };
+    let sync_t = norm(&sync_t, &mut kind_differs, &async_t);
+    let async_t = norm(&async_t, &mut kind_differs, &sync_t);
+    if async_t != sync_t {
+        let class = if damaged { "damaged" } else { "valid" };
+        // damaged inputs: the records delivered before the first error must agree; how the end is
+        // reported (error vs end of file, stage, kind) is the "same errors" clause
+        if damaged {
+            let cut = |t: &[Ev]| -> usize { t.iter().position(|e| matches!(e, Ev::Err { .. } | Ev::Eof | Ev::Runaway)).unwrap_or(t.len()) };
+            let (a, b) = (cut(&sync_t), cut(&async_t));
+            let n = a.min(b);
+            if sync_t[..n] != async_t[..n] {
+                return fail1(format!("c16.reader.damaged.prefix-differs:{name}"), format!("{} | sync: {} | async: {}", first_diff(&sync_t, &async_t), summarize(&sync_t), summarize(&async_t)));
+            }
+            // listed class: the BSIZE field of the final BGZF member claims more bytes than the file
+            // holds, while the bytes present form a complete, valid member
+            if drv.is_bgzf() {
+                let (_, off) = bgzf_walk::walk_prefix(&data);
+                if off < data.len() && data.len() - off >= 26 {
+                    let mut tail = data[off..].to_vec();
+                    let declared = u16::from_le_bytes([tail[16], tail[17]]) as usize + 1;
+                    let actual = tail.len();
+                    tail[16..18].copy_from_slice(&((actual - 1) as u16).to_le_bytes());
+                    if declared > actual && bgzf_walk::parse_member(&tail, 0).map(|(n, _)| n == actual).unwrap_or(false) {
+                        return fail1(
+                            format!("c16.reader.final-member-bsize-too-large:{name}"),
+                            format!("the last BGZF member declares {declared} bytes but the file ends after {actual} bytes that form a complete valid member: the sync reader reports an error, the async reader accepts the member | sync: {} | async: {}", summarize(&sync_t), summarize(&async_t)),
+                        );
+                    }
+                }
+            }
+            let end_sync = sync_t.get(a).map(|e| format!("{e:?}")).unwrap_or_default();
+            let end_async = async_t.get(b).map(|e| format!("{e:?}")).unwrap_or_default();
+            return fail1(
+                format!("c16.reader.damaged.end-differs:{name}"),
+                format!("after {a} (sync) / {b} (async) agreeing events the sync reader ends with {end_sync} and the async reader with {end_async} | sync: {} | async: {}", summarize(&sync_t), summarize(&async_t)),
+            );
+        }
+        return fail1(format!("c16.reader.{class}.differs:{name}"), format!("{} | sync: {} | async: {}", first_diff(&sync_t, &async_t), summarize(&sync_t), summarize(&async_t)));
+    }
+    let nontrivial = st.pendings > 0 && st.partials > 0;
+    Ok(Pass::new(nontrivial, key_of(c))
+        .label_if(st.pendings > 0, "pending-delivered")
+        .label_if(st.partials > 0, "partial-transfer")
+        .label_if(damaged, "damaged-input")
+        .label_if(kind_differs, "same-stage-different-error-kind(not asserted)")
+        .label_if(!damaged, "valid-input")
+        .label_if(drivers::records_of(&sync_t).len() >= 2, "records>=2")
+        .label_if(c.workers > 1, "workers>1"))
+}
+
+fn check_writer(name: &'static str, c: &Case) -> Verdict {
+    let drv = drivers::by_name(name).unwrap();
+    // the sync writer of the same calls: no explicit inner flushes (the async twins have none)
+    let doc = match &c.doc {
+        Doc::Aln(a) => {
+            let mut a = a.clone();
+            if name != "cram" {
+                a.flush_every = 0;
+            }
+            Doc::Aln(a)
+        }
+        Doc::Var(v) => {
+            let mut v = v.clone();
+            v.flush_every = 0;
+            Doc::Var(v)
+        }
+        d => d.clone(),
+    };
+    let sync_bytes = match drivers::write_to_vec(drv.as_ref(), &doc) {
+        Ok(b) => b,
+        Err(e) => return fail1(format!("c16.baseline-write-error:{name}"), format!("{e}")),
+    };
+    let Some((res, async_bytes, st)) = write_async(name, &doc, &c.script, c.workers as usize) else {
+        return fail1(shard::HARNESS_PANIC, format!("no async writer for {name}"));
+    };
+    if let Err(e) = res {
+        return fail1(format!("c16.writer.error:{name}"), format!("async writer failed on a healthy scripted sink: {e}"));
+    }
+    let opts = ReadOpts { max_events: 50_000, ..ReadOpts::default() };
+    let (ts, _) = drv.read(&Arc::new(sync_bytes.clone()), &Delivery::Plain, &doc, &opts);
+    let (ta, _) = drv.read(&Arc::new(async_bytes.clone()), &Delivery::Plain, &doc, &opts);
+    // virtual positions depend on the block layout, which the statement does not fix for writers
+    let strip = |t: &[Ev]| -> Vec<Ev> { t.iter().filter(|e| !matches!(e, Ev::Vpos(_))).cloned().collect() };
+    if strip(&ts) != strip(&ta) {
+        return fail1(format!("c16.writer.decodes-differently:{name}"), format!("{} | sync output: {} | async output: {}", first_diff(&strip(&ts), &strip(&ta)), summarize(&ts), summarize(&ta)));
+    }
+    let mut byte_identity = false;
+    if matches!(name, "sam" | "vcf" | "fastq" | "bai" | "gzi" | "fai") {
+        byte_identity = true;
+        if sync_bytes != async_bytes {
+            return fail1(
+                format!("c16.writer.bytes-differ:{name}"),
+                format!("no compression involved, yet the outputs differ: sync {} bytes, async {} bytes, first difference at {:?}", sync_bytes.len(), async_bytes.len(), super::c01::first_diff(&sync_bytes, &async_bytes)),
+            );
+        }
+    }
+    if drv.is_bgzf() {
+        let ma = bgzf_walk::walk(&async_bytes).map_err(|e| vec![Fail::new(format!("c16.writer.malformed-bgzf:{name}"), e)])?;
+        if async_bytes.len() < 28 || async_bytes[async_bytes.len() - 28..] != bgzf_walk::EOF_MARKER {
+            return fail1(format!("c16.writer.no-eof-marker:{name}"), "async output does not end with the BGZF EOF marker after shutdown()".to_string());
+        }
+        if matches!(name, "csi" | "tabix" | "bam" | "bcf" | "bgzf") {
+            let ms = bgzf_walk::walk(&sync_bytes).map_err(|e| vec![Fail::new(format!("c16.baseline-malformed-bgzf:{name}"), e)])?;
+            if bgzf_walk::concat(&ms) != bgzf_walk::concat(&ma) {
+                return fail1(format!("c16.writer.payload-differs:{name}"), "the BGZF-decoded payloads of the sync and async outputs differ".to_string());
+            }
+            byte_identity = true;
+        }
+    }
+    let nontrivial = st.pendings > 0 && st.partials > 0;
+    Ok(Pass::new(nontrivial, key_of(c))
+        .label_if(st.pendings > 0, "pending-delivered")
+        .label_if(st.partials > 0, "partial-transfer")
+        .label_if(byte_identity, "byte-or-payload-identity-asserted")
+        .label_if(c.workers > 1, "workers>1"))
+}
+
+pub const READERS: &[&str] = &["bgzf", "bam", "bam-eager", "sam", "cram", "vcf", "bcf", "fasta", "fastq", "gff", "bai", "csi", "tabix", "gzi", "fai", "crai"];
+pub const WRITERS: &[&str] = &["bgzf", "bam", "sam", "cram", "vcf", "bcf", "fastq", "bai", "csi", "tabix", "gzi", "fai", "crai"];
 
 pub fn property() -> Property {
-    Property { id: "C16", level: "exploration", rule: "", assumptions: vec![], subs: vec![], max_parallel: 16 }
+    let mut subs: Vec<Box<dyn DynSub>> = Vec::new();
+    for name in READERS {
+        let name: &'static str = name;
+        assert!(has_async_reader(name));
+        let (q, t) = match name {
+            "cram" => (100, 3000),
+            "bgzf" => (120, 3000),
+            _ => (200, 6000),
+        };
+        subs.push(
+            ClosureSub::<Case> {
+                name: format!("read:{name}"),
+                rule: "non-trivial = the poll adversary returned ≥1 Pending and made ≥1 partial transfer; distinct by hash of (document, script, workers, damage)".into(),
+                strategy: Box::new(move |tier| {
+                    let d = drivers::by_name(name).unwrap();
+                    let doc = if name == "bgzf" {
+                        use crate::r#gen::payload::payload;
+                        (payload(tier.pick(140_000, 260_000)), proptest::collection::vec(0u16..=1000, 0..5), proptest::option::of(0u8..=9)).prop_map(|(payload, flushes, level)| Doc::Bytes { payload, flushes, level }).boxed()
+                    } else {
+                        d.doc(tier)
+                    };
+                    let damage = prop_oneof![
+                        5 => Just(Damage::None),
+                        1 => (0u16..=1000).prop_map(Damage::Truncate),
+                        1 => (0u16..1000, any::<u8>()).prop_map(|(p, x)| Damage::Flip(p, x)),
+                    ];
+                    (doc, script(), 1u8..=8, damage).prop_map(|(doc, script, workers, damage)| Case { doc, script, workers, damage }).boxed()
+                }),
+                check: Box::new(move |c| check_reader(name, c)),
+                quick: q,
+                thorough: t,
+                opts: SubOpts { max_shards: 4, isolate: true, hang_is_violation: true, case_budget_s: 20, ..SubOpts::default() },
+            }
+            .boxed(),
+        );
+    }
+    for name in WRITERS {
+        let name: &'static str = name;
+        assert!(has_async_writer(name));
+        let (q, t) = match name {
+            "cram" => (80, 2500),
+            "bgzf" => (100, 2500),
+            _ => (160, 5000),
+        };
+        subs.push(
+            ClosureSub::<Case> {
+                name: format!("write:{name}"),
+                rule: "non-trivial = the sink returned ≥1 Pending and accepted ≥1 partial buffer; distinct by hash of (document, script, workers)".into(),
+                strategy: Box::new(move |tier| {
+                    let d = drivers::by_name(name).unwrap();
+                    let doc = if name == "bgzf" {
+                        use crate::r#gen::payload::payload;
+                        (payload(tier.pick(140_000, 260_000)), proptest::collection::vec(0u16..=1000, 0..5), proptest::option::of(0u8..=9)).prop_map(|(payload, flushes, level)| Doc::Bytes { payload, flushes, level }).boxed()
+                    } else {
+                        d.doc(tier)
+                    };
+                    (doc, script(), 1u8..=8).prop_map(|(doc, script, workers)| Case { doc, script, workers, damage: Damage::None }).boxed()
+                }),
+                check: Box::new(move |c| check_writer(name, c)),
+                quick: q,
+                thorough: t,
+                opts: SubOpts { max_shards: 4, isolate: true, hang_is_violation: true, case_budget_s: 20, ..SubOpts::default() },
+            }
+            .boxed(),
+        );
+    }
+    Property {
+        id: "C16",
+        level: "exploration",
+        rule: "document per format with an async twin × poll script (Pending with self-wake, partial transfers down to 1 byte) × async BGZF worker count 1..8 × {valid, truncated, one byte flipped}",
+        assumptions: vec![
+            "the sync reader/writer on the same input/calls is the reference (differential relation)".into(),
+            "current-thread tokio runtime with a blocking pool; writer virtual positions / block layout are not compared".into(),
+        ],
+        subs,
+        max_parallel: 16,
+    }
 }
